@@ -90,7 +90,9 @@ pub fn fmt_stub(_args: std::fmt::Arguments<'_>) -> String { String::new() }
 pub fn encode_cbor_stub<T: serde::Serialize>(value: &T) -> Result<Vec<u8>, p2panda_core::cbor::EncodeError> {
     match crate::mcodec::to_vec(value) {
         Ok(v) => Ok(v),
-        Err(_) => Err(p2panda_core::cbor::EncodeError::Value(String::new())),
+        // the model codec supports every type these harnesses encode; cutting the error path here keeps
+        // io::Error's recursive drop glue (reachable through EncodeError) out of the formula
+        Err(_) => { crate::sym::assume(false); unreachable!() }
     }
 }
 
